@@ -139,4 +139,60 @@ def run(tier, seed):
                 run.fail({"schema": s, "rewritten": s2, "canon": text, "canon_rewritten": ic2},
                          "canonical form changed under a cosmetic rewrite", kind="oracle")
                 break
+    embedded_family(run, tier, seed)
     return run.finish()
+
+
+def _strip_markers(x):
+    if isinstance(x, dict):
+        return {k: _strip_markers(v) for k, v in x.items() if k not in ("__fastavro_parsed", "__named_schemas")}
+    if isinstance(x, list):
+        return [_strip_markers(v) for v in x]
+    return x
+
+
+def embedded_family(run, tier, seed):
+    """call sequences on shared schema objects: a record is parsed, its canonical form is taken (possibly several
+    times), and the *parsed object* is then embedded in another schema — under a different namespace, renamed by
+    the enclosing namespace — whose canonical form must still be the specification's transformation of the composed
+    schema; the order of the calls must not matter"""
+    import copy
+    import random
+    n = scale(tier, 60)
+    pend = []
+    for i in range(n):
+        r = random.Random(seed * 13007 + i)
+        leaf = r.choice(["int", "string", {"type": "enum", "name": "Col", "symbols": ["R", "G"]}, {"type": "fixed", "name": "Fx", "size": 4},
+                         {"type": "array", "items": "long"}])
+        inner_ns = r.choice([None, None, "in.ner"])
+        inner = {"type": "record", "name": "Point", "doc": "d", "fields": [{"name": "x", "type": leaf}, {"name": "again", "type": ["null", "Point"]}]}
+        if inner_ns:
+            inner["namespace"] = inner_ns
+        outer_ns = r.choice(["geo", "a.b", None])
+        steps = []
+        try:
+            p = parse_schema(copy.deepcopy(inner))
+            steps.append("parse(inner)")
+            for _ in range(r.randint(0, 2)):
+                c_in = to_parsing_canonical_form(p)
+                steps.append("canon(parsed inner)")
+            where = r.choice(["field", "array", "union"])
+            emb = {"field": p, "array": {"type": "array", "items": p}, "union": ["null", p]}[where]
+            outer = {"type": "record", "name": "Outer", "fields": [{"name": "f", "type": emb}, {"name": "g", "type": "int"}]}
+            if outer_ns:
+                outer["namespace"] = outer_ns
+            raw_equiv = _strip_markers(copy.deepcopy(outer))
+            got = to_parsing_canonical_form(outer)
+            steps.append("canon(outer embedding the parsed inner)")
+            got2 = to_parsing_canonical_form(copy.deepcopy(raw_equiv))
+        except Exception as e:  # noqa
+            run.tag("embedded:skipped")
+            continue
+        pend.append((raw_equiv, got, got2, steps))
+    spec = run_batch([{"op": "spec.canon", "schema": to_wire(rw)} for rw, _, _, _ in pend])
+    for (rw, got, got2, steps), sp in zip(pend, spec):
+        case = {"schema": rw, "steps": steps, "tags": ["embedded-parsed"]}
+        run.count(case, True, ["embedded-parsed"])
+        if sp.get("ok") != got:
+            run.fail(dict(case, impl=got, spec=sp, fresh=got2), "canonical form of a schema that embeds an already parsed (and canonicalised) "
+                     "sub-schema differs from the specification's transformation", kind="oracle")
